@@ -130,6 +130,7 @@ def run(db, chk) -> None:
         okst = okst and key == "weight" and lit(n.value) == 0 and neg_guard
     chk.ob("C09.R1-key-agreement", "validation overwrites an edge weight only with 0 and only under the negative-weight guard", okst, m.loc(v), found=det, accepted=[("weight", "0", "e.weight <= -1 and ...")],
            why="writing the stored CPEdge weight back on every edge silently undoes a what-if re-weighting before the path is recomputed")
+    _validate_keeps_reweighting(db, chk, m, v)
     # (private helpers and generator helpers of critical_path are read as if written out in place)
     f_in = H.inline_helpers(m, f, exclude=("_validate_graph",))
     obj_reads = [n for g_ in [f_in] + [x for x in H.with_private_callees(m, f) if x is not f] for n in ast.walk(g_) if isinstance(n, ast.Subscript) and lit(n.slice) == "object"]
@@ -393,3 +394,62 @@ def _result_writers(db, chk, rule="C09.R6-result-writers") -> None:
                        why="an edit of the graph's own set (e.g. filtering it in place while drawing an overlay) makes the reported edges differ from the edges of the computed path")
     chk.ob(rule, "the reported path members are written by the constructor, critical_path() and restore only (all other sites of the package read them)", True if n_reads >= 12 else None, CP, found=f"{n_reads} sites inspected",
            accepted=">= 12 sites, no writer outside the three")
+
+
+
+def _validate_keeps_reweighting(db, chk, m, v):
+    """[abstract runs] _validate_graph on a one-edge graph whose 'weight' ATTRIBUTE was changed after construction (the documented what-if workflow): the attribute
+    the search maximises must come out as it went in - however the store is spelled (self.edges[u, v][k] = .., the data dict of edges(data=True), set_edge_attributes)."""
+    from ..core.interp import Interp
+    from ..core.values import Obj, PyTuple, to_term
+    CPm = m.name
+    ref = f"{CPm}:CPGraph._validate_graph"
+
+    def run(obj_w, attr_w):
+        state = {}
+
+        def hook(I, name, pos, kw, node):
+            if name.endswith("critical_path_strict_negative_weight_check"):
+                return False
+            if name.endswith("is_directed_acyclic_graph"):
+                return True
+            if name.endswith("_get_node_name"):
+                return "name"
+            if name.endswith("simple_cycles") or name.endswith("find_cycle"):
+                return []
+            if name in ("self.edges", "self.edges.data"):
+                key = kw.get("data", pos[0] if pos else None)
+                if key is True:
+                    return [PyTuple([0, 1, state["data"]])]
+                if isinstance(key, str):
+                    return [PyTuple([0, 1, state["data"].get(key, kw.get("default"))])]
+                return [PyTuple([0, 1])]
+            if name == "self.get_edge_data" and len(pos) == 2:
+                return state["data"]
+            if name.endswith("set_edge_attributes"):
+                state["bulk"] = True
+                return None
+            return NotImplemented
+
+        def args(I):
+            e = Obj("edge", attrs={"weight": obj_w, "type": ("enum", "CPEdgeType", "DEPENDENCY"), "begin": 0, "end": 1})
+            state["data"] = {"object": e, "weight": attr_w, "type": ("enum", "CPEdgeType", "DEPENDENCY")}
+            state.pop("bulk", None)
+            edges = {to_term(PyTuple([0, 1])): state["data"]}
+            nl = [Obj("n0", attrs={"ev_idx": 10, "idx": 0, "is_start": False, "is_blocking": False}), Obj("n1", attrs={"ev_idx": 11, "idx": 1, "is_start": True, "is_blocking": False})]
+            tdf = Obj("trace_df", attrs={"stream": Obj("stream", attrs={"loc": {10: 7, 11: 8}})})
+            return {"self": Obj("self", cls=(m, "CPGraph"), attrs={"edges": edges, "node_list": nl, "trace_df": tdf})}
+        try:
+            runs = [r for r in Interp(db, call_hook=hook).explore(ref, args) if r.raised is None]
+        except AnalysisError:
+            return None
+        if len(runs) != 1 or runs[0].path or state.get("bulk"):
+            return None
+        w = state["data"].get("weight")
+        return w[1] if isinstance(w, tuple) and len(w) == 2 and w[0] == "const" else (w if isinstance(w, (int, float)) else None)
+    cases = (("built with weight 5, re-weighted to 9", 5, 9), ("built with weight 5, re-weighted to 0", 5, 0), ("built with weight 5, not re-weighted", 5, 5))
+    got = {what: run(ow, aw) for what, ow, aw in cases}
+    bad = {what: got[what] for what, ow, aw in cases if got[what] is not None and got[what] != aw}
+    chk.ob("C09.R1-key-agreement", "[abstract runs] validation leaves the 'weight' attribute of a sound edge as it found it (a what-if re-weighting survives the recomputation)",
+           False if bad else (None if any(g is None for g in got.values()) else True), m.loc(v), found=bad or got, accepted={what: aw for what, ow, aw in cases},
+           why="writing the weight frozen in the CPEdge object back onto the graph on every validation silently undoes the documented re-weighting before the path is recomputed")
